@@ -326,6 +326,17 @@ func c01(c *Ctx) {
 	r.Rule("R01.D", "nothing reachable from tl.Marshal ranges over a map or reads a clock / random source", 1)
 	r.Rule("R01.H", "hand-written codecs are siblings: both methods exist, neither unconditionally panics, writer and reader sequences agree", 2)
 	r.Rule("R01.U", "no two registered constructors share an id", 1)
+	// every constructor of the API package can be chosen by id (R01.U): a tl.Object with a constant id that nobody
+	// registers cannot be decoded by DecodeUnknownObject
+	if pp0, err := c.Pop(); err == nil {
+		for _, m := range pp0.Unregistered {
+			if m.Pkg == load.TgPkg && m.CRCKnown {
+				r.Violate("R01.U", "registered:telegram."+m.Name, c.pos(m.Pos), sprintf("%s has the constant id %08x but is not passed to tl.RegisterObjects: the decoder cannot choose it from its id", m.Name, m.CRC))
+			}
+		}
+	}
+	r.Rule("R01.E", "an enum is decoded by naming its type: decodeObject sets a pointed-to uint32 value from the constructor id read from the wire, under a test that the id is a registered member of that type (comparing the id with the CRC() of the zero value refuses every member)", 1)
+	c01EnumByName(c)
 	r.Rule("R01.V", "the decoder admits what the encoder emits: the count / length sanity bounds of popVector and PopRawBytes pass for every honest (size, bytes left) pair of the grid, and depend on nothing else", 2)
 	c01Admission(c)
 	tr := an.NewTracer()
@@ -1171,4 +1182,48 @@ func (c *Ctx) marshalOwnsResult(rule string) {
 	if n == 0 {
 		r.Undecide(rule, "marshal:result-owned-by-caller", c.pos(mf.Pos()), "no value-returning exit of tl.Marshal")
 	}
+}
+
+// c01EnumByName: R01.E.
+func c01EnumByName(c *Ctx) {
+	r := c.R
+	f := c.fn("R01.E", load.TLPkg, "*Decoder", "decodeObject")
+	if f == nil {
+		return
+	}
+	tr := an.NewTracer()
+	var sets []an.CallSite
+	for _, cs := range an.CallsNamed(f, "(reflect.Value).SetUint") {
+		if len(cs.Common.Args) == 2 && tr.HasOrigin(cs.Common.Args[1], "tl.Decoder).PopCRC") {
+			sets = append(sets, cs)
+		}
+	}
+	if len(sets) == 0 {
+		r.Violate("R01.E", "enum-by-name", c.pos(f.Pos()), "decodeObject never assigns the constructor id it read to the value: tl.Decode(data, &enumValue) compares the id with the CRC() of the zero value and refuses every member of every enum type")
+		return
+	}
+	// the assignment is guarded by a membership test that involves the registry
+	guarded := false
+	for _, i := range an.Ifs(f) {
+		cd, ok := an.Classify(i)
+		if !ok {
+			continue
+		}
+		o := ""
+		if cd.X != nil {
+			o += tr.OriginString(cd.X)
+		}
+		if cd.Y != nil {
+			o += tr.OriginString(cd.Y)
+		}
+		if !strings.Contains(o, "global:objectByCrc") && !strings.Contains(o, "global:enumCrcs") {
+			continue
+		}
+		for _, pass := range []bool{true, false} {
+			if len(an.Guarded(f, []an.Edge{cd.EdgeWhen(pass)}, []ssa.Instruction{sets[0].Instr})) == 0 {
+				guarded = true
+			}
+		}
+	}
+	r.Check(guarded, "R01.E", "enum-by-name", c.pos(sets[0].Pos()), "the value is set from the id read from the wire, behind a test against the registry of enum members")
 }
